@@ -51,9 +51,9 @@ func checkC13(tier, replay string) int {
 type c13Case struct {
 	Pool    int    `json:"pool"`
 	Callers int    `json:"callers"`
-	Mix     string `json:"mix"`  // single | mget-nonquiet | mget-quiet | mixed
-	Cut     string `json:"cut"`  // idle | before | after | mid | repeated | outage
-	J       int    `json:"j"`    // burst position of the request that is cut
+	Mix     string `json:"mix"`   // single | mget-nonquiet | mget-quiet | mixed
+	Cut     string `json:"cut"`   // idle | before | after | mid | repeated | outage
+	J       int    `json:"j"`     // burst position of the request that is cut
 	Bytes   int    `json:"bytes"` // reply bytes sent before the cut (mid)
 	Batch   int    `json:"batch_size"`
 }
@@ -159,11 +159,11 @@ func (m *cmodel) read(k string, hit bool, v wire.Val) string {
 }
 
 type c13Env struct {
-	dir   string
-	sock  string
-	st    *fakemc.Store
-	srv   *fakemc.Server
-	opts  batched.Opts
+	dir     string
+	sock    string
+	st      *fakemc.Store
+	srv     *fakemc.Server
+	opts    batched.Opts
 	cuts    int64
 	lastCut int64
 	armed   int32
